@@ -20,7 +20,7 @@ TNext ==
     \/ Is("drop_barrier") /\ P_DropBarrier(E.b)
     \/ Is("wait") /\ P_Wait(E.b, E.res)
     \/ Is("drop_handle") /\ P_DropHandle(E.t)
-    \/ Is("trig") /\ P_Trig(E.src, E.v, E.sync) /\ Len(trigs) + 1 = E.t
+    \/ Is("trig") /\ P_Trig(E.src, E.v, E.sync, E.unwind) /\ Len(trigs) + 1 = E.t
     \/ Is("ret") /\ P_Ret(E.src, E.prog) /\ open[E.src] = E.t
     \/ Is("panicked") /\ P_Panicked(E.src) /\ open[E.src] = E.t
     \/ Is("poll_end") /\ P_PollEnd(E.src, E.prog)
